@@ -75,7 +75,17 @@ def run(ctl, I, sc):
         return
     ctl.log('Created', pulls=pulls[0], calls=calls[0] if kind != 'bools' or sc.get('cform') == 'iter' else 0)
     its = {'T': t, 'F': f}
-    for w in sc['order']:
+    del t, f
+    drop = sc.get('drop')            # [which, after how many steps]: that result iterator is closed and dropped
+    for step, w in enumerate(sc['order']):
+        if drop and step == drop[1] and drop[0] in its:
+            it = its.pop(drop[0])
+            close = getattr(it, 'close', None)
+            if close is not None:
+                close()
+            del it, close            # (reference counting finalises it at once)
+        if w not in its:
+            continue
         try:
             v = next(its[w])
             stop = False
